@@ -31,7 +31,7 @@ func c10(c *Ctx) {
 	pb := "codecs.(*H264Packet).parseBody"
 	fn := p.Func(pb)
 	if fn == nil {
-		r.Fatalf("anchor %s missing", pb)
+		missingAnchor(r, pb)
 		return
 	}
 	m := bits.Run(p, fn)
@@ -364,7 +364,7 @@ func c12(c *Ctx) {
 		if f := p.Func(nme); f != nil {
 			entries = append(entries, f)
 		} else {
-			r.Fatalf("anchor %s missing", nme)
+			missingAnchor(r, nme)
 		}
 	}
 	boundsFor(c, "C12", entries)
